@@ -428,4 +428,5 @@ def run(chk):
     # O5.5 / O5.6: the legacy constructor and the templates hand the configured arguments through unchanged
     chk.guard("O19.5", "Translator.construct", c19.construct_rules, chk)
     chk.guard("O19.1", c19.TRANSLATOR, c19.structure_rules, chk)
+    chk.guard("O19.1", c19.TRANSLATOR, c19.per_activation_state, chk)
     chk.guard("O4.1", util.PARTIAL, c04.partial_core, chk)
